@@ -876,6 +876,78 @@ def run_r10(ctx, rule):
         rule.check(good, "initialize/root-transferred/%s" % root, "every successful initialisation has transferred all %s%s" % (what, "" if good else " - " + why), where)
 
 
+# ---- R11: the constant cannot be redefined, in either polarity ------------------------------------------------------
+def run_r11(ctx, rule):
+    """Literals 0 and 1 are the constant.  `lit_defs` refuses an input or an and-gate output that is the constant in
+    *either* polarity: today by seeding the table with key 0 before anything else is inserted (the per-item question
+    then covers both polarities, C12-R8).  Accepted alternatively: a test in front of the insert that excludes both
+    codes (`code < 2`, `code >> 1 == 0`, `code & !1 == 0`, or the two equalities).  A test for code 0 alone lets a graph
+    through that defines literal 1, and the renumbering then overwrites the constant's entry in the literal map."""
+    facts = ctx.facts
+    f = afn(facts, "Aig::lit_defs")
+    sy = sym(f)
+    c = cfg(f)
+    ins = []
+    for bb, t in f.calls():
+        cn = norm(util.cname(t))
+        if "HashMap" in cn and cn.rsplit("::", 1)[-1] == "insert" and len(t["args"]) >= 2:
+            ins.append((bb, _key_class(sy.operand(t["args"][1]))))
+    consts = [bb for bb, k in ins if k[0] == "const"]
+    others = [(bb, k) for bb, k in ins if k[0] != "const"]
+    if not others:
+        rule.bad("lit_defs/no-inserts", "anchor missing: lit_defs inserts no definitions", f.loc(), kind="anchor-missing")
+        return
+
+    def ev(e, v):
+        if e[0] == "c" and isinstance(e[1], int):
+            return e[1]
+        if e[0] == "cast":
+            return ev(e[2], v)
+        if e[0] == "call" and norm(e[2]).rsplit("::", 1)[-1] == "code":
+            return v
+        if e[0] == "l":
+            o = sy.origin(e)
+            return ev(o, v) if o != e else None
+        if e[0] == "un" and e[1] == "Not":
+            a = ev(e[2], v)
+            return None if a is None else (~a) & ((1 << 64) - 1)
+        if e[0] == "bin":
+            a, b = ev(e[2], v), ev(e[3], v)
+            if a is None or b is None:
+                return None
+            op = e[1].replace("Unchecked", "")
+            return {"BitAnd": a & b, "BitOr": a | b, "BitXor": a ^ b, "Shr": a >> b if b < 64 else 0, "Shl": (a << b) & ((1 << 64) - 1) if b < 64 else 0, "Add": a + b, "Sub": a - b}.get(op)
+        return None
+
+    def refutes(fa, v):
+        """does the fact contradict `code == v`?"""
+        if fa[0] == "cmp":
+            a, b = ev(fa[2], v), ev(fa[3], v)
+            if a is None or b is None or not (mentions(fa[2], is_code) or mentions(fa[3], is_code)):
+                return False
+            return not {"Eq": a == b, "Ne": a != b, "Lt": a < b, "Le": a <= b, "Gt": a > b, "Ge": a >= b}.get(fa[1], True)
+        if fa[0] == "notin" and mentions(fa[1], is_code):
+            a = ev(fa[1], v)
+            return a is not None and a in fa[2]
+        if fa[0] == "eq" and mentions(fa[1], is_code):
+            a = ev(fa[1], v)
+            return a is not None and a != fa[2]
+        if fa[0] == "bool" and isinstance(fa[1], tuple) and fa[1][0] == "bin" and mentions(fa[1], is_code):
+            a, b = ev(fa[1][2], v), ev(fa[1][3], v)
+            if a is None or b is None:
+                return False
+            r = {"Eq": a == b, "Ne": a != b, "Lt": a < b, "Le": a <= b, "Gt": a > b, "Ge": a >= b}.get(fa[1][1])
+            return r is not None and r != fa[2]
+        return False
+
+    is_code = lambda x: x[0] == "call" and norm(x[2]).rsplit("::", 1)[-1] == "code"
+    for bb, k in others:
+        seeded = any(c.dominates(cb, bb) for cb in consts)
+        excl = all(any(refutes(fa, v) for _s, fa in guards.facts_at(f, bb)) for v in (0, 1))
+        kind = sorted(kinds_of(source_fields(f, k[1]))) if k[0] != "const" else []
+        rule.check(seeded or excl, "lit_defs/constant-both-polarities/%s" % ("+".join(kind) or "insert@%d" % len([1 for b2, _ in others if b2 < bb])), "a definition (%s) is recorded only where the constant is refused in both polarities (%s)" % (", ".join(kind) or "?", "table seeded with literal 0 first" if seeded else "guarded by tests excluding codes 0 and 1" if excl else "neither a seeded table nor tests excluding both code 0 and code 1"), f.loc(bb))
+
+
 def run(ctx):
     r1 = ctx.rule("C12-R1", "the renumbering code is not recursive (explicit stack)", floor=2)
     run_r1(ctx, r1)
@@ -895,6 +967,8 @@ def run(ctx):
     run_r7(ctx, r7)
     r10 = ctx.rule("C12-R10", "every root literal (latch next-state, output, bad-state, constraint, justice, fairness) is transferred on every path on which initialize returns Ok: an undefined root yields LitNotDefined, never a panic or a wrong circuit later", floor=6)
     run_r10(ctx, r10)
+    r11 = ctx.rule("C12-R11", "the constant cannot be redefined in either polarity: lit_defs records a definition only behind a table seeded with literal 0 (or tests excluding codes 0 and 1)", floor=2)
+    run_r11(ctx, r11)
     r6 = ctx.rule("C12-R6", "every constant fold is an identity of AND (each decision path checked over the six representative codes)", floor=5)
     run_r6(ctx, r6)
     ctx.assume("Boolean equivalence of the renumbered circuit as a whole, hash-consing and completeness of the cycle detection are value-level and NOT decided (the const-fold case analysis is decided by C12-R6)")
